@@ -581,3 +581,502 @@ Proof.
   destruct (9223372036854775807 <? v)%Z eqn:E1; [lia|]. apply Z.ltb_ge in E1.
   destruct (v <? -9223372036854775808)%Z eqn:E2; [lia|]. apply Z.ltb_ge in E2. lia.
 Qed.
+
+(* ------------------------------------------------------------------------------------------ *)
+(* the decision of mi_option_init on a value                                                   *)
+(* ------------------------------------------------------------------------------------------ *)
+Definition isnil (s : bytes) : bool := match s with [] => true | _ => false end.
+
+Lemma nonul_hd0 e : nonul e = true -> (hd0 e =? 0) = isnil e.
+Proof. destruct e as [|c r]; cbn; [reflexivity|]. intros H. apply andb_prop in H as [H _]. now destruct (c =? 0). Qed.
+Lemma nonul_tl0 e : nonul e = true -> nonul (tl0 e) = true.
+Proof. destruct e as [|c r]; cbn; [reflexivity|]. intros H. now apply andb_prop in H as [_ H]. Qed.
+Lemma nonul_drop_while p s : nonul s = true -> nonul (drop_while p s) = true.
+Proof. induction s as [|c r IH]; cbn; [reflexivity|]. intros H. destruct (p c); [apply IH; now apply andb_prop in H as [_ H]|exact H]. Qed.
+Lemma nonul_strip_sign s : nonul s = true -> nonul (strip_sign s) = true.
+Proof. intros H. unfold strip_sign. destruct (_ || _); [now apply nonul_tl0|exact H]. Qed.
+Lemma nonul_strip_unit s : nonul s = true -> nonul (strip_unit s) = true.
+Proof. intros H. unfold strip_unit. destruct (is_unit_char _); [now apply nonul_tl0|exact H]. Qed.
+Lemma nonul_strip_tail s : nonul s = true -> nonul (strip_tail s) = true.
+Proof. intros H. unfold strip_tail. destruct (_ && _); [now apply nonul_tl0, nonul_tl0|]. destruct (_ =? 66); [now apply nonul_tl0|exact H]. Qed.
+Lemma cstr_nonul s : nonul s = true -> cstr s = s.
+Proof. induction s as [|c r IH]; cbn; [reflexivity|]. intros H. apply andb_prop in H as [H1 H2]. destruct (c =? 0); [discriminate|]. now rewrite IH. Qed.
+
+Definition scan_value (s1 s2 : bytes) : Z :=
+  clamp_long (if hd0 s1 =? 45 then (- decval (take_while isdigit s2))%Z else decval (take_while isdigit s2)).
+
+Lemma parse_value_num kib u :
+  hd0 u <> 0 -> is_word u words_true = false -> is_word u words_false = false ->
+  parse_value kib u =
+  let s1 := drop_while isspace u in
+  let s2 := strip_sign s1 in
+  let e := drop_while isdigit s2 in
+  if isdigit (hd0 s2) then
+    if kib then (if hd0 (strip_tail (strip_unit e)) =? 0 then PNum (kib_value (scan_value s1 s2) (hd0 e)) else PInvalid)
+    else (if hd0 e =? 0 then PNum (scan_value s1 s2) else PInvalid)
+  else PInvalid.
+Proof.
+  intros H0 Ht Hf. unfold parse_value. apply N.eqb_neq in H0. rewrite H0, Ht, Hf. cbn [orb].
+  rewrite strtol10_eq. cbn zeta. fold (scan_value (drop_while isspace u) (strip_sign (drop_while isspace u))).
+  destruct (isdigit (hd0 (strip_sign (drop_while isspace u)))).
+  - destruct kib; cbn [andb].
+    + rewrite parse_size_suffix_eq by apply clamp_long_range. reflexivity.
+    + reflexivity.
+  - cbn [andb]. rewrite H0. reflexivity.
+Qed.
+
+(* boolean form of the grammar and of "malformed" *)
+Definition suffix_b (kib : bool) (e : bytes) : bool := if kib then isnil (strip_tail (strip_unit e)) else isnil e.
+Definition grammar_b (kib : bool) (u : bytes) : bool :=
+  let s2 := strip_sign (drop_while isspace u) in
+  isdigit (hd0 s2) && suffix_b kib (drop_while isdigit s2).
+Fixpoint bytes_eqb (a b : bytes) : bool :=
+  match a, b with
+  | [], [] => true
+  | x :: a', y :: b' => (x =? y) && bytes_eqb a' b'
+  | _, _ => false
+  end.
+Definition all_words : list bytes := true_words ++ false_words.
+Definition word_b (u : bytes) : bool := existsb (bytes_eqb (map toupper u)) all_words.
+(* malformed: not empty, not one of the eight words (in any letter case), not a number of the grammar *)
+Definition malformed_b (kib : bool) (u : bytes) : bool :=
+  negb (isnil u) && negb (word_b u) && negb (grammar_b kib u).
+
+Lemma bytes_eqb_eq a : forall b, bytes_eqb a b = true <-> a = b.
+Proof.
+  induction a as [|x a' IH]; intros [|y b']; cbn; try (split; [discriminate|discriminate]); [tauto|].
+  rewrite andb_true_iff, N.eqb_eq, IH. split; [intros [-> ->]; reflexivity|intros H; inversion H; auto].
+Qed.
+Lemma word_b_iff u : word_b u = true <-> In (map toupper u) all_words.
+Proof.
+  unfold word_b. rewrite existsb_exists. split.
+  - intros (w & Hin & He). apply bytes_eqb_eq in He. now subst.
+  - intros H. exists (map toupper u). split; [exact H|]. now apply bytes_eqb_eq.
+Qed.
+
+Lemma words_disjoint x : In x true_words -> In x false_words -> False.
+Proof.
+  cbn. intros [<-|[<-|[<-|[<-|[]]]]] [H|[H|[H|[H|[]]]]]; discriminate.
+Qed.
+
+Theorem parse_invalid_iff kib u : nonul u = true -> isbytes u = true ->
+  (parse_value kib u = PInvalid <-> malformed_b kib u = true).
+Proof.
+  intros Hn Hb. unfold malformed_b.
+  destruct u as [|c0 r0] eqn:Eu; [cbn; split; discriminate|]. rewrite <- Eu in *. replace (isnil u) with false by (now subst u).
+  cbn [negb andb].
+  assert (H0 : hd0 u <> 0). { pose proof (nonul_hd0 u Hn) as H. subst u. cbn in *. now apply N.eqb_neq. }
+  pose proof (is_word_true_iff u Hb) as Ht. pose proof (is_word_false_iff u Hb) as Hf.
+  rewrite (cstr_nonul u Hn) in Ht, Hf.
+  destruct (is_word u words_true) eqn:Et.
+  - replace (word_b u) with true.
+    + unfold parse_value. rewrite Et, orb_true_r. cbn. split; discriminate.
+    + symmetry. apply word_b_iff. unfold all_words. apply in_or_app. left. now apply Ht.
+  - destruct (is_word u words_false) eqn:Ef.
+    + replace (word_b u) with true.
+      * unfold parse_value. rewrite Et, Ef. apply N.eqb_neq in H0. rewrite H0. cbn. split; discriminate.
+      * symmetry. apply word_b_iff. unfold all_words. apply in_or_app. right. now apply Hf.
+    + replace (word_b u) with false.
+      2:{ symmetry. destruct (word_b u) eqn:Ew; [|reflexivity]. apply word_b_iff in Ew. unfold all_words in Ew.
+          apply in_app_or in Ew as [Ew|Ew]; [apply Ht in Ew|apply Hf in Ew]; discriminate. }
+      cbn [negb andb]. rewrite (parse_value_num kib u H0 Et Ef). cbn zeta. unfold grammar_b, suffix_b.
+      set (s2 := strip_sign (drop_while isspace u)).
+      assert (Hn2 : nonul s2 = true) by (apply nonul_strip_sign, nonul_drop_while; exact Hn).
+      destruct (isdigit (hd0 s2)); cbn [andb negb]; [|tauto].
+      destruct kib.
+      * rewrite (nonul_hd0 _ (nonul_strip_tail _ (nonul_strip_unit _ (nonul_drop_while isdigit s2 Hn2)))).
+        destruct (isnil _); cbn; split; congruence.
+      * rewrite (nonul_hd0 _ (nonul_drop_while isdigit s2 Hn2)).
+        destruct (isnil _); cbn; split; congruence.
+Qed.
+
+(* the boolean grammar is the declarative one *)
+Lemma digit_not_space c : isdigit c = true -> isspace c = false.
+Proof.
+  unfold isdigit, isspace. intros H. apply andb_prop in H as [H1 H2]. apply N.leb_le in H1, H2.
+  replace (c =? 32) with false by (symmetry; apply N.eqb_neq; lia).
+  replace (c <=? 13) with false by (symmetry; apply N.leb_gt; lia). now rewrite andb_false_r.
+Qed.
+Lemma digit_props c : isdigit c = true -> (c =? 45) = false /\ (c =? 43) = false /\ c <> 0.
+Proof.
+  unfold isdigit. intros H. apply andb_prop in H as [H1 H2]. apply N.leb_le in H1, H2.
+  repeat split; try (apply N.eqb_neq); lia.
+Qed.
+
+Lemma hd0_app_ne a b : a <> [] -> hd0 (a ++ b) = hd0 a.
+Proof. destruct a; [congruence|reflexivity]. Qed.
+Lemma forallb_hd p a : a <> [] -> forallb p a = true -> p (hd0 a) = true.
+Proof. destruct a; [congruence|]. cbn. intros _ H. now apply andb_prop in H as [H _]. Qed.
+
+Lemma suffix_cases kib suf : is_suffix kib suf ->
+  isdigit (hd0 suf) = false /\ suffix_b kib suf = true.
+Proof.
+  intros [->|(-> & un & tl & -> & Hu & Ht)]; [destruct kib; split; reflexivity|].
+  destruct Hu as [->|[->|[->|[->| ->]]]]; destruct Ht as [->|[->| ->]]; split; reflexivity.
+Qed.
+
+Lemma grammar_scan ws sg ds suf :
+  forallb isspace ws = true -> is_sign sg -> ds <> [] -> forallb isdigit ds = true -> isdigit (hd0 suf) = false ->
+  let u := ws ++ sg ++ ds ++ suf in
+  drop_while isspace u = sg ++ ds ++ suf /\
+  strip_sign (drop_while isspace u) = ds ++ suf /\
+  hd0 (drop_while isspace u) = hd0 (sg ++ ds) /\
+  take_while isdigit (ds ++ suf) = ds /\ drop_while isdigit (ds ++ suf) = suf /\
+  isdigit (hd0 (ds ++ suf)) = true.
+Proof.
+  intros Hws Hsg Hne Hds Hsuf. cbn zeta.
+  pose proof (forallb_hd isdigit ds Hne Hds) as Hd0.
+  destruct (digit_props _ Hd0) as (D45 & D43 & _).
+  assert (Hsp : isspace (hd0 (sg ++ ds ++ suf)) = false).
+  { destruct Hsg as [->|[->| ->]]; [|reflexivity|reflexivity]. cbn [app]. rewrite hd0_app_ne by exact Hne. now apply digit_not_space. }
+  rewrite (drop_while_app isspace ws _ Hws Hsp).
+  split; [reflexivity|]. split; [|split; [|split; [|split]]].
+  - unfold strip_sign. destruct Hsg as [->|[->| ->]]; [|reflexivity|reflexivity].
+    cbn [app]. rewrite hd0_app_ne by exact Hne. now rewrite D45, D43.
+  - destruct Hsg as [->|[->| ->]]; [|reflexivity|reflexivity]. cbn [app]. now rewrite !hd0_app_ne by exact Hne.
+  - now apply take_while_app.
+  - now apply drop_while_app.
+  - now rewrite hd0_app_ne by exact Hne.
+Qed.
+
+Lemma grammar_b_iff kib u : grammar_b kib u = true <-> Grammar kib u.
+Proof.
+  split.
+  - unfold grammar_b. cbn zeta. intros H. apply andb_prop in H as [Hd Hs].
+    set (s1 := drop_while isspace u) in *. set (s2 := strip_sign s1) in *.
+    exists (take_while isspace u),
+           (if (hd0 s1 =? 45) || (hd0 s1 =? 43) then [hd0 s1] else []),
+           (take_while isdigit s2), (drop_while isdigit s2).
+    split; [|split; [|split; [|split; [|split]]]].
+    + rewrite <- (take_drop_while isdigit s2). unfold s2, strip_sign.
+      rewrite (take_drop_while isspace u) at 1. fold s1. f_equal.
+      destruct s1 as [|c r]; [reflexivity|]. cbn [hd0 tl0]. destruct (_ || _); reflexivity.
+    + apply take_while_all.
+    + destruct (hd0 s1 =? 45) eqn:E1; [apply N.eqb_eq in E1; rewrite E1; right; right; reflexivity|].
+      destruct (hd0 s1 =? 43) eqn:E2; [apply N.eqb_eq in E2; rewrite E2; right; left; reflexivity|]. now left.
+    + destruct s2 as [|c r]; [discriminate|]. cbn [hd0] in Hd. cbn. rewrite Hd. discriminate.
+    + apply take_while_all.
+    + unfold suffix_b in Hs. destruct kib.
+      * right. split; [reflexivity|]. set (e := drop_while isdigit s2) in *.
+        unfold strip_unit, is_unit_char in Hs.
+        assert (Ht : forall e1, isnil (strip_tail e1) = true -> is_tail e1).
+        { intros e1. unfold strip_tail. destruct e1 as [|a [|b r]]; cbn; [now left|..].
+          - destruct (a =? 66) eqn:E; [apply N.eqb_eq in E; subst; intros _; right; left; reflexivity|].
+            rewrite andb_false_r. discriminate.
+          - destruct ((a =? 73) && (b =? 66)) eqn:E.
+            + apply andb_prop in E as [Ea Eb]. apply N.eqb_eq in Ea, Eb. subst. destruct r; [|discriminate]. intros _. right; right; reflexivity.
+            + destruct (a =? 66); discriminate. }
+        destruct e as [|c r]; [exists [], []; repeat split; now left|]. cbn [hd0 tl0] in Hs.
+        destruct (c =? 75) eqn:E1; [apply N.eqb_eq in E1; subst; exists [75], r; cbn; repeat split; [right; left; reflexivity|now apply Ht]|].
+        destruct (c =? 77) eqn:E2; [apply N.eqb_eq in E2; subst; exists [77], r; cbn; repeat split; [right; right; left; reflexivity|now apply Ht]|].
+        destruct (c =? 71) eqn:E3; [apply N.eqb_eq in E3; subst; exists [71], r; cbn; repeat split; [right; right; right; left; reflexivity|now apply Ht]|].
+        destruct (c =? 84) eqn:E4; [apply N.eqb_eq in E4; subst; exists [84], r; cbn; repeat split; [right; right; right; right; reflexivity|now apply Ht]|].
+        cbn [orb] in Hs. exists [], (c :: r). repeat split; [now left|now apply Ht].
+      * left. destruct (drop_while isdigit s2); [reflexivity|discriminate].
+  - intros (ws & sg & ds & suf & -> & Hws & Hsg & Hne & Hds & Hsuf).
+    destruct (suffix_cases kib suf Hsuf) as [Hd Hsb].
+    destruct (grammar_scan ws sg ds suf Hws Hsg Hne Hds Hd) as (E1 & E2 & _ & _ & E4 & E5).
+    unfold grammar_b. cbn zeta. rewrite E2, E5, E4, Hsb. reflexivity.
+Qed.
+
+(* the documented values *)
+Lemma numeric_not_word u : isbytes u = true -> nonul u = true ->
+  (isdigit (hd0 u) || isspace (hd0 u) || (hd0 u =? 43) || (hd0 u =? 45)) = true ->
+  u <> w_1 -> u <> w_0 ->
+  is_word u words_true = false /\ is_word u words_false = false.
+Proof.
+  intros Hb Hn Hc H1 H0.
+  assert (Hup : toupper (hd0 u) = hd0 u).
+  { unfold toupper. destruct ((97 <=? hd0 u) && (hd0 u <=? 122)) eqn:E; [|reflexivity]. exfalso.
+    apply andb_prop in E as [Ea Eb]. apply N.leb_le in Ea, Eb.
+    unfold isdigit, isspace in Hc. rewrite !orb_true_iff, !andb_true_iff, !N.eqb_eq, !N.leb_le in Hc. lia. }
+  assert (Hnl : forall w, map toupper u = w -> hd0 w = hd0 u).
+  { intros w <-. destruct u; [reflexivity|]. cbn in *. exact Hup. }
+  assert (Hlet : forall w, In w [w_TRUE; w_YES; w_ON; w_FALSE; w_NO; w_OFF] -> map toupper u <> w).
+  { intros w Hin Heq. apply Hnl in Heq. rewrite <- Heq in Hc.
+    cbn in Hin. destruct Hin as [<-|[<-|[<-|[<-|[<-|[<-|[]]]]]]]; discriminate. }
+  assert (Hone : forall d, map toupper u = [d] -> u = [d]).
+  { intros d Heq. destruct u as [|c [|? ?]]; try discriminate. cbn in Heq, Hup. congruence. }
+  pose proof (is_word_true_iff u Hb) as Ht. pose proof (is_word_false_iff u Hb) as Hf.
+  rewrite (cstr_nonul u Hn) in Ht, Hf. split.
+  - destruct (is_word u words_true); [|reflexivity]. exfalso.
+    destruct Ht as [Ht _]. specialize (Ht eq_refl). cbn in Ht.
+    destruct Ht as [E|[E|[E|[E|[]]]]]; symmetry in E;
+      [apply H1; now apply Hone|apply (Hlet w_TRUE)|apply (Hlet w_YES)|apply (Hlet w_ON)]; cbn; auto 10.
+  - destruct (is_word u words_false); [|reflexivity]. exfalso.
+    destruct Hf as [Hf _]. specialize (Hf eq_refl). cbn in Hf.
+    destruct Hf as [E|[E|[E|[E|[]]]]]; symmetry in E;
+      [apply H0; now apply Hone|apply (Hlet w_FALSE)|apply (Hlet w_NO)|apply (Hlet w_OFF)]; cbn; auto 10.
+Qed.
+
+Lemma grammar_first_char ws sg ds suf :
+  forallb isspace ws = true -> is_sign sg -> ds <> [] -> forallb isdigit ds = true ->
+  let c := hd0 (ws ++ sg ++ ds ++ suf) in
+  (isdigit c || isspace c || (c =? 43) || (c =? 45)) = true /\ c <> 0.
+Proof.
+  intros Hws Hsg Hne Hds. cbn zeta.
+  pose proof (forallb_hd isdigit ds Hne Hds) as Hd0.
+  destruct ws as [|w ws'].
+  - cbn [app]. destruct Hsg as [->|[->| ->]]; [|split; [reflexivity|discriminate]|split; [reflexivity|discriminate]].
+    cbn [app]. rewrite hd0_app_ne by exact Hne. rewrite Hd0. split; [reflexivity|]. now apply digit_props.
+  - cbn in *. apply andb_prop in Hws as [Hw _]. rewrite Hw, orb_true_r. split; [reflexivity|].
+    intros ->. discriminate.
+Qed.
+
+Theorem parse_number_value kib ws sg ds suf :
+  forallb isspace ws = true -> is_sign sg -> ds <> [] -> forallb isdigit ds = true -> is_suffix kib suf ->
+  let u := ws ++ sg ++ ds ++ suf in
+  isbytes u = true -> nonul u = true -> u <> w_1 -> u <> w_0 ->
+  parse_value kib u =
+    PNum (if kib then kib_value (clamp_long (sign_apply sg (decval ds))) (hd0 suf)
+          else clamp_long (sign_apply sg (decval ds))).
+Proof.
+  intros Hws Hsg Hne Hds Hsuf u Hb Hn H1 H0.
+  destruct (grammar_first_char ws sg ds suf Hws Hsg Hne Hds) as [Hc Hc0]. fold u in Hc, Hc0.
+  destruct (numeric_not_word u Hb Hn Hc H1 H0) as [Et Ef].
+  rewrite (parse_value_num kib u Hc0 Et Ef). cbn zeta.
+  destruct (suffix_cases kib suf Hsuf) as [Hd Hsb].
+  destruct (grammar_scan ws sg ds suf Hws Hsg Hne Hds Hd) as (E1 & E2 & E3 & E4 & E5 & E6). fold u in E1, E2, E3.
+  rewrite E2, E6, E5. unfold scan_value. rewrite E2, E3, E4.
+  assert (Hsv : (if hd0 (sg ++ ds) =? 45 then (- decval ds)%Z else decval ds) = sign_apply sg (decval ds)).
+  { unfold sign_apply. destruct Hsg as [->|[->| ->]]; [|reflexivity|reflexivity].
+    cbn [app hd0]. pose proof (forallb_hd isdigit ds Hne Hds) as Hd0. destruct (digit_props _ Hd0) as (D45 & _). now rewrite D45. }
+  rewrite Hsv. unfold suffix_b in Hsb. destruct kib.
+  - rewrite (nonul_hd0 _ (nonul_strip_tail _ (nonul_strip_unit suf _))), Hsb; [reflexivity|].
+    unfold u in Hn. unfold nonul in *. rewrite !forallb_app in Hn. now repeat (apply andb_prop in Hn as [_ Hn]).
+  - destruct suf; [reflexivity|discriminate].
+Qed.
+
+Lemma forallb_weaken (p q : N -> bool) l : (forall c, p c = true -> q c = true) -> forallb p l = true -> forallb q l = true.
+Proof. intros H. induction l as [|c r IH]; cbn; [reflexivity|]. intros Hp. apply andb_prop in Hp as [H1 H2]. rewrite (H c H1). now apply IH. Qed.
+
+Lemma grammar_bytes kib ws sg ds suf :
+  forallb isspace ws = true -> is_sign sg -> forallb isdigit ds = true -> is_suffix kib suf ->
+  isbytes (ws ++ sg ++ ds ++ suf) = true /\ nonul (ws ++ sg ++ ds ++ suf) = true.
+Proof.
+  intros Hws Hsg Hds Hsuf. unfold isbytes, nonul. rewrite !forallb_app.
+  assert (A1 : forallb (fun c => c <? 256) ws = true /\ forallb (fun c => negb (c =? 0)) ws = true).
+  { split; apply (forallb_weaken isspace); try exact Hws; intros c Hc; unfold isspace in Hc;
+    rewrite orb_true_iff, andb_true_iff, N.eqb_eq, !N.leb_le in Hc;
+    [apply N.ltb_lt; lia|apply negb_true_iff, N.eqb_neq; lia]. }
+  assert (A2 : forallb (fun c => c <? 256) ds = true /\ forallb (fun c => negb (c =? 0)) ds = true).
+  { split; apply (forallb_weaken isdigit); try exact Hds; intros c Hc; unfold isdigit in Hc;
+    rewrite andb_true_iff, !N.leb_le in Hc; [apply N.ltb_lt; lia|apply negb_true_iff, N.eqb_neq; lia]. }
+  assert (A3 : forallb (fun c => c <? 256) sg = true /\ forallb (fun c => negb (c =? 0)) sg = true).
+  { destruct Hsg as [->|[->| ->]]; split; reflexivity. }
+  assert (A4 : forallb (fun c => c <? 256) suf = true /\ forallb (fun c => negb (c =? 0)) suf = true).
+  { destruct Hsuf as [->|(_ & un & tl & -> & Hu & Ht)]; [split; reflexivity|].
+    destruct Hu as [->|[->|[->|[->| ->]]]]; destruct Ht as [->|[->| ->]]; split; reflexivity. }
+  destruct A1 as [-> ->], A2 as [-> ->], A3 as [-> ->], A4 as [-> ->]. split; reflexivity.
+Qed.
+
+(* ------------------------------------------------------------------------------------------ *)
+(* option table: mi_option_set / mi_option_get / mi_option_set_default                         *)
+(* ------------------------------------------------------------------------------------------ *)
+Lemma length_tset t : forall i o, length (tset t i o) = length t.
+Proof. induction t as [|x r IH]; intros [|i] o; cbn; try reflexivity. now rewrite IH. Qed.
+Lemma tget_tset_eq t : forall i o, (i < length t)%nat -> tget (tset t i o) i = o.
+Proof. unfold tget. induction t as [|x r IH]; intros [|i] o H; cbn in *; try lia; [reflexivity|]. apply IH. lia. Qed.
+Lemma tget_tset_ne t : forall i j o, i <> j -> tget (tset t i o) j = tget t j.
+Proof. unfold tget. induction t as [|x r IH]; intros [|i] [|j] o H; cbn; try reflexivity; try congruence. apply IH. congruence. Qed.
+Lemma in_range_tset t i j o : in_range (tset t i o) j = in_range t j.
+Proof. unfold in_range. now rewrite length_tset. Qed.
+Lemma in_range_lt t i : in_range t i = true <-> (i < length t)%nat.
+Proof. unfold in_range. apply Nat.ltb_lt. Qed.
+
+Definition set1 (t : table) (i : nat) (v : Z) : table :=
+  tset t i (mkopt v INITIALIZED (o_name (tget t i)) (o_legacy (tget t i))).
+
+Lemma guarded_distinct : Nat.eqb opt_guarded_min opt_guarded_max = false.
+Proof. reflexivity. Qed.
+
+Lemma option_set_spec t i v : in_range t i = true ->
+  exists t', option_set t i v = Some t' /\ length t' = length t /\
+             o_value (tget t' i) = v /\ o_init (tget t' i) = INITIALIZED /\
+             (forall j, j <> i -> j <> opt_guarded_min -> j <> opt_guarded_max -> tget t' j = tget t j).
+Proof.
+  intros Hr. pose proof Hr as Hlt. apply in_range_lt in Hlt.
+  pose proof guarded_distinct as Hgd. apply Nat.eqb_neq in Hgd.
+  unfold option_set. cbn [option_set_fuel]. rewrite Hr. cbn [negb]. fold (set1 t i v).
+  assert (Hi : tget (set1 t i v) i = mkopt v INITIALIZED (o_name (tget t i)) (o_legacy (tget t i))) by (apply tget_tset_eq; exact Hlt).
+  assert (Hl1 : length (set1 t i v) = length t) by apply length_tset.
+  assert (Ho1 : forall j, j <> i -> tget (set1 t i v) j = tget t j) by (intros j Hj; apply tget_tset_ne; congruence).
+  destruct (Nat.eqb i opt_guarded_min && (o_value (tget (set1 t i v) opt_guarded_max) <? v)%Z) eqn:C1.
+  - apply andb_prop in C1 as [Ei _]. apply Nat.eqb_eq in Ei.
+    unfold in_range at 1. rewrite Hl1.
+    destruct (Nat.ltb opt_guarded_max (length t)) eqn:Rm; cbn [negb].
+    + fold (set1 (set1 t i v) opt_guarded_max v).
+      assert (Hm : tget (set1 (set1 t i v) opt_guarded_max v) i = tget (set1 t i v) i) by (apply tget_tset_ne; congruence).
+      replace (Nat.eqb opt_guarded_max opt_guarded_min) with false by (symmetry; apply Nat.eqb_neq; congruence).
+      rewrite Nat.eqb_refl. cbn [andb]. rewrite <- Ei at 2. rewrite Hm, Hi. cbn [o_value]. rewrite Z.ltb_irrefl.
+      exists (set1 (set1 t i v) opt_guarded_max v). repeat split.
+      * unfold set1 at 1. now rewrite length_tset.
+      * now rewrite Hm, Hi.
+      * now rewrite Hm, Hi.
+      * intros j J1 J2 J3. unfold set1 at 1. rewrite tget_tset_ne by congruence. now apply Ho1.
+    + exists (set1 t i v). repeat split; try assumption; try (now rewrite Hi). intros j J1 _ _. now apply Ho1.
+  - destruct (Nat.eqb i opt_guarded_max && (v <? o_value (tget (set1 t i v) opt_guarded_min))%Z) eqn:C2.
+    + apply andb_prop in C2 as [Ei _]. apply Nat.eqb_eq in Ei.
+      unfold in_range at 1. rewrite Hl1.
+      destruct (Nat.ltb opt_guarded_min (length t)) eqn:Rm; cbn [negb].
+      * fold (set1 (set1 t i v) opt_guarded_min v).
+        assert (Hm : tget (set1 (set1 t i v) opt_guarded_min v) i = tget (set1 t i v) i) by (apply tget_tset_ne; congruence).
+        rewrite Nat.eqb_refl. cbn [andb]. rewrite <- Ei at 2. rewrite Hm, Hi. cbn [o_value]. rewrite Z.ltb_irrefl.
+        replace (Nat.eqb opt_guarded_min opt_guarded_max) with false by (symmetry; apply Nat.eqb_neq; congruence).
+        cbn [andb].
+        exists (set1 (set1 t i v) opt_guarded_min v). repeat split.
+        -- unfold set1 at 1. now rewrite length_tset.
+        -- now rewrite Hm, Hi.
+        -- now rewrite Hm, Hi.
+        -- intros j J1 J2 J3. unfold set1 at 1. rewrite tget_tset_ne by congruence. now apply Ho1.
+      * exists (set1 t i v). repeat split; try assumption; try (now rewrite Hi). intros j J1 _ _. now apply Ho1.
+    + exists (set1 t i v). repeat split; try assumption; try (now rewrite Hi). intros j J1 _ _. now apply Ho1.
+Qed.
+
+Lemma set_get_roundtrip_lemma t i v env pre s0 b0 : in_range t i = true ->
+  exists t', option_set t i v = Some t' /\ option_get t' i env pre s0 b0 = Some (v, t', false) /\
+             o_init (tget t' i) = INITIALIZED.
+Proof.
+  intros Hr. destruct (option_set_spec t i v Hr) as (t' & Hs & Hl & Hv & Hi & _).
+  exists t'. split; [exact Hs|]. split; [|exact Hi].
+  unfold option_get. unfold in_range in *. rewrite Hl, Hr. cbn [negb]. rewrite Hi. cbn. now rewrite Hv.
+Qed.
+
+Lemma set_default_lemma t i v : in_range t i = true ->
+  let t' := option_set_default t i v in
+  o_init (tget t' i) = o_init (tget t i) /\
+  o_value (tget t' i) = (if o_init (tget t i) =? INITIALIZED then o_value (tget t i) else v) /\
+  (forall j, j <> i -> tget t' j = tget t j).
+Proof.
+  intros Hr. cbn zeta. unfold option_set_default. rewrite Hr. cbn [negb]. apply in_range_lt in Hr.
+  destruct (o_init (tget t i) =? INITIALIZED); cbn [negb].
+  - repeat split.
+  - rewrite tget_tset_eq by exact Hr. repeat split. intros j Hj. apply tget_tset_ne. congruence.
+Qed.
+
+(* an option that is out of range is ignored by all three *)
+Lemma out_of_range_lemma t i v env pre s0 b0 : in_range t i = false ->
+  option_set t i v = Some t /\ option_set_default t i v = t /\ option_get t i env pre s0 b0 = Some (0%Z, t, false).
+Proof. intros Hr. unfold option_set, option_set_default, option_get. cbn [option_set_fuel]. rewrite Hr. repeat split. Qed.
+
+(* ------------------------------------------------------------------------------------------ *)
+(* mi_option_init after `found`: only the first 64 bytes of the value are looked at            *)
+(* ------------------------------------------------------------------------------------------ *)
+Lemma nthN_cstr l : forall i, i < lenN (cstr l) -> nthN (cstr l) i = nthN l i.
+Proof.
+  induction l as [|c r IH]; intros i H; cbn in *; [lia|].
+  destruct (c =? 0); cbn in *; [lia|]. destruct (i =? 0) eqn:E; [reflexivity|]. apply N.eqb_neq in E. apply IH. lia.
+Qed.
+Lemma lenN_cstr_le l : lenN (cstr l) <= lenN l.
+Proof. induction l as [|c r IH]; cbn; [lia|]. destruct (c =? 0); cbn; lia. Qed.
+Lemma nonul_cstr l : nonul (cstr l) = true.
+Proof. induction l as [|c r IH]; cbn; [reflexivity|]. destruct (c =? 0) eqn:E; cbn; [reflexivity|]. now rewrite E. Qed.
+
+Lemma strnlen_nonul s : forall m, nonul s = true -> strnlen s m = N.min (lenN s) m.
+Proof.
+  induction s as [|c r IH]; intros m H; cbn in *; [lia|]. apply andb_prop in H as [H1 H2]. rewrite H1. cbn [andb].
+  destruct (0 <? m) eqn:E; [apply N.ltb_lt in E; rewrite IH by exact H2; lia|apply N.ltb_ge in E; lia].
+Qed.
+
+Lemma lenN_takeN l : forall n, lenN (takeN n l) = N.min n (lenN l).
+Proof. induction l as [|x r IH]; intros n; cbn; [lia|]. destruct (n =? 0) eqn:E; [apply N.eqb_eq in E; subst; cbn; lia|]. apply N.eqb_neq in E. cbn. rewrite IH. lia. Qed.
+Lemma nthN_takeN l : forall n i, i < n -> nthN (takeN n l) i = nthN l i.
+Proof.
+  induction l as [|x r IH]; intros n i H; cbn; [reflexivity|]. destruct (n =? 0) eqn:E; [apply N.eqb_eq in E; lia|].
+  cbn. destruct (i =? 0) eqn:F; [reflexivity|]. apply N.eqb_neq in F. apply IH. lia.
+Qed.
+Lemma takeN_all l : forall n, lenN l <= n -> takeN n l = l.
+Proof. induction l as [|x r IH]; intros n H; cbn in *; [reflexivity|]. destruct (n =? 0) eqn:E; [apply N.eqb_eq in E; lia|]. f_equal. apply IH. lia. Qed.
+Lemma nthN_map_toupper l : forall i, i < lenN l -> nthN (map toupper l) i = toupper (nthN l i).
+Proof. induction l as [|x r IH]; intros i H; cbn in *; [lia|]. destruct (i =? 0) eqn:E; [reflexivity|]. apply N.eqb_neq in E. apply IH. lia. Qed.
+Lemma lenN_map (f : N -> N) l : lenN (map f l) = lenN l.
+Proof. induction l as [|x r IH]; cbn; [reflexivity|]. now rewrite IH. Qed.
+
+Lemma toupper_nz c : c <> 0 -> toupper c <> 0.
+Proof. unfold toupper. destruct ((97 <=? c) && (c <=? 122)) eqn:E; [|tauto]. apply andb_prop in E as [E1 E2]. apply N.leb_le in E1, E2. lia. Qed.
+Lemma toupper_byte c : c < 256 -> toupper c < 256.
+Proof. unfold toupper. destruct ((97 <=? c) && (c <=? 122)); lia. Qed.
+Lemma nonul_map_toupper l : nonul l = true -> nonul (map toupper l) = true.
+Proof.
+  induction l as [|c r IH]; cbn; [reflexivity|]. intros H. apply andb_prop in H as [H1 H2]. rewrite IH by exact H2.
+  apply negb_true_iff, N.eqb_neq in H1. apply toupper_nz in H1. apply N.eqb_neq in H1. now rewrite H1.
+Qed.
+Lemma isbytes_map_toupper l : isbytes l = true -> isbytes (map toupper l) = true.
+Proof.
+  induction l as [|c r IH]; cbn; [reflexivity|]. intros H. apply andb_prop in H as [H1 H2]. rewrite IH by exact H2.
+  apply N.ltb_lt in H1. apply toupper_byte in H1. apply N.ltb_lt in H1. now rewrite H1.
+Qed.
+Lemma nonul_takeN l : forall n, nonul l = true -> nonul (takeN n l) = true.
+Proof. induction l as [|c r IH]; intros n H; cbn in *; [reflexivity|]. destruct (n =? 0); [reflexivity|]. cbn. apply andb_prop in H as [H1 H2]. now rewrite H1, IH. Qed.
+Lemma nonul_nth l : forall i, nonul l = true -> i < lenN l -> nthN l i <> 0.
+Proof.
+  induction l as [|c r IH]; intros i H Hi; cbn in *; [lia|]. apply andb_prop in H as [H1 H2].
+  destruct (i =? 0) eqn:E; [now apply negb_true_iff, N.eqb_neq in H1|]. apply N.eqb_neq in E. apply IH; [exact H2|lia].
+Qed.
+
+(* a list that starts with the non-zero bytes p followed by a 0 holds the C string p *)
+Lemma cstr_prefix p : forall l, nonul p = true -> lenN p < lenN l ->
+  (forall i, i < lenN p -> nthN l i = nthN p i) -> nthN l (lenN p) = 0 -> cstr l = p.
+Proof.
+  induction p as [|c r IH]; intros l Hn Hl Hp Hz.
+  - destruct l as [|x y]; [reflexivity|]. cbn in Hz. subst x. reflexivity.
+  - destruct l as [|x y]; [cbn in Hl; lia|]. cbn in Hn. apply andb_prop in Hn as [Hc Hn].
+    pose proof (Hp 0) as H0. cbn in H0. rewrite H0 by lia. cbn [cstr].
+    apply negb_true_iff in Hc. rewrite Hc. f_equal. apply IH.
+    + exact Hn.
+    + cbn in Hl. lia.
+    + intros i Hi. specialize (Hp (i + 1)). cbn in Hp.
+      replace (i + 1 =? 0) with false in Hp by (symmetry; apply N.eqb_neq; lia).
+      replace (i + 1 - 1) with i in Hp by lia. apply Hp. lia.
+    + cbn in Hz. replace (N.succ (lenN r) =? 0) with false in Hz by (symmetry; apply N.eqb_neq; lia).
+      now replace (N.succ (lenN r) - 1) with (lenN r) in Hz by lia.
+Qed.
+
+Lemma upcase_loop_spec k : forall i s b,
+  fault s = false -> fault b = false -> i + N.of_nat k <= blen s -> i + N.of_nat k <= blen b ->
+  let '(s', b') := upcase_loop k i s b in
+  s' = s /\ fault b' = false /\ blen b' = blen b /\
+  (forall j, i <= j < i + N.of_nat k -> bget b' j = toupper (bget s j)) /\
+  (forall j, j < i \/ i + N.of_nat k <= j -> bget b' j = bget b j).
+Proof.
+  induction k as [|k IH]; intros i s b Fs Fb Hs Hb; cbn [upcase_loop].
+  - repeat split; try assumption. intros j Hj. lia.
+  - rewrite bread_in by lia.
+    specialize (IH (i + 1) s (bput b i (toupper (bget s i))) Fs).
+    destruct (upcase_loop k (i + 1) s (bput b i (toupper (bget s i)))) as [s' b'].
+    destruct IH as (Es & Fb' & Lb' & P & O); [rewrite fault_bput; [exact Fb|lia]|lia|rewrite blen_bput; lia|].
+    rewrite blen_bput in Lb'. repeat split; try assumption.
+    + intros j Hj. destruct (N.eq_dec j i) as [->|Hne].
+      * rewrite O by lia. apply bget_bput_eq. lia.
+      * apply P. lia.
+    + intros j Hj. rewrite O by lia. apply bget_bput_ne. lia.
+Qed.
+
+Lemma option_init_found_spec t i s b :
+  fault s = false -> fault b = false -> 65 <= blen b ->
+  let '(r, s', b') := option_init_found t i s b in
+  r = apply_pres t i (parse_value (has_size_in_kib i) (map toupper (takeN 64 (bstr s 0)))) /\
+  fault s' = false /\ fault b' = false /\ blen b' = blen b.
+Proof.
+  intros Fs Fb Lb. unfold option_init_found.
+  set (v := bstr s 0). assert (Hvn : nonul v = true) by apply nonul_cstr.
+  rewrite (strnlen_nonul v 64 Hvn). set (len := N.min (lenN v) 64).
+  assert (Hvs : lenN v <= blen s). { unfold v, bstr, blen. cbn [dropN]. destruct (bdata s); [cbn; lia|]. replace (0 =? 0) with true by reflexivity. apply lenN_cstr_le. }
+  pose proof (upcase_loop_spec (N.to_nat len) 0 s b Fs Fb) as H.
+  destruct (upcase_loop (N.to_nat len) 0 s b) as [s' b'].
+  destruct H as (Es & Fb' & Lb' & P & O); [lia|lia|]. subst s'.
+  assert (Hput : fault (bput b' len 0) = false /\ blen (bput b' len 0) = blen b).
+  { split; [rewrite fault_bput; [exact Fb'|lia]|rewrite blen_bput; exact Lb']. }
+  destruct Hput as [Fp Lp]. split; [|repeat split; assumption].
+  f_equal. f_equal. unfold bstr at 1. 
+  assert (Hd0 : forall l, dropN l 0 = l) by (intros [|x y]; reflexivity). rewrite Hd0.
+  apply cstr_prefix.
+  - apply nonul_map_toupper, nonul_takeN, Hvn.
+  - rewrite lenN_map, lenN_takeN. fold (blen (bput b' len 0)). rewrite Lp. lia.
+  - intros j Hj. rewrite lenN_map, lenN_takeN in Hj. fold (bget (bput b' len 0) j).
+    rewrite bget_bput_ne by (unfold len; lia). rewrite P by (unfold len; lia).
+    rewrite nthN_map_toupper by (rewrite lenN_takeN; lia). rewrite nthN_takeN by lia.
+    f_equal. unfold v, bstr. rewrite Hd0. rewrite nthN_cstr; [reflexivity|]. fold (bstr s 0). unfold bstr. rewrite Hd0. fold v. unfold v, bstr in Hj. rewrite Hd0 in Hj. lia.
+  - rewrite lenN_map, lenN_takeN. fold (bget (bput b' len 0) (N.min 64 (lenN v))).
+    replace (N.min 64 (lenN v)) with len by (unfold len; lia). apply bget_bput_eq. lia.
+Qed.
